@@ -612,7 +612,14 @@ def getitem(a, index):
     a = as_sarr(a)
     # full-shape boolean mask -> 1-d result
     if isinstance(index, (SArr, np.ndarray)) and getattr(index, "dtype", None) is not None and index.dtype.kind == "b" and index.ndim == a.ndim and a.ndim > 1:
-        raise Unsupported("n-d boolean mask read")
+        if a.ndim != 2:
+            raise Unsupported("n-d boolean mask read (more than 2 dimensions)")
+        # a[mask] for a 2-d mask: the selected elements in row-major order (np.where(mask) specification, shared with a later a[mask] = ...)
+        oblige("mask.shape", z3.And(*[T(p) == T(q) for p, q in zip(as_sarr(index).shape, a.shape)]), "boolean index did not match the indexed array")
+        info = _where2d_of(index)
+        src = a.snapshot()
+        out = SArr(a.dtype, (dim(info["count"]),), lambda idx: src((info["rows"](idx[0]), info["cols"](idx[0]))))
+        return out
     index = _norm_index(index, a.ndim)
     adv = [k for k, i in enumerate(index) if _is_adv(i) and not _is_scalar_index(i)]
     if not adv:
@@ -826,7 +833,13 @@ def setitem(a, index, value):
         m = as_sarr(index).snapshot()
         v = as_sarr(value)
         if v.ndim != 0:
-            raise Unsupported("n-d boolean mask assignment of a non scalar")
+            if a.ndim != 2 or v.ndim != 1:
+                raise Unsupported("n-d boolean mask assignment of a non scalar")
+            info = _where2d_of(index)
+            oblige("mask.assign.length", T(v.shape[0]) == info["count"], "NumPy boolean array indexing assignment cannot assign a different number of values than the mask selects")
+            vs1 = cast_fn(v.dtype, a.dtype, v.snapshot())
+            a._write(lambda idx: m(idx), lambda idx: vs1((info["rank"](idx[0], idx[1]),)))
+            return
         vs = cast_fn(v.dtype, a.dtype, v.snapshot())
         a._write(lambda idx: m(idx), lambda idx: vs(()))
         return
@@ -1005,6 +1018,18 @@ def where1d(mask):
         c_.where_log.append(info)
         c_.where_cache[key] = out
     return out
+
+
+def _where2d_of(mask):
+    """the np.where specification of a 2-d mask object, created once per mask object (a read a[mask] and a write a[mask] = v share it)"""
+    hit = getattr(mask, "_where2d_info", None) if isinstance(mask, SArr) else None
+    if hit is not None:
+        return hit
+    rows, cols = where2d(mask)
+    info = rows.where_of[0]
+    if isinstance(mask, SArr):
+        mask._where2d_info = info
+    return info
 
 
 def where2d(mask):
